@@ -118,6 +118,8 @@ def run_call(call, scratch):
                     kw["glycan_generator"] = (x for x in items)
                 if "verbose_none" in call:
                     kw["verbose"] = None
+                if "verbose" in call:
+                    kw["verbose"] = call["verbose"]          # a logging level (10 = DEBUG, 20 = INFO, 0 = NOTSET) or False
                 for k in ("cpu_count", "full"):
                     if k in call:
                         kw[k] = call[k]
